@@ -57,6 +57,7 @@ class QGen:
         self.ctx = None      # sample values of '@' at the current filter level
         self.reached = _MISSING  # scalar reached by the last guided singular query
         self.evalr = None    # optional reference evaluator used only to guide literals
+        self.cheap_filters = False
         self.by_ret = {VALUE: [], LOGICAL: [], NODES: []}
         for n, f in self.registry.items():
             self.by_ret[f["ret"]].append(n)
@@ -200,7 +201,9 @@ class QGen:
 
     def filter_query(self, fdepth):
         r = self.r
-        if r.random() < 0.5:
+        if r.random() < 0.5 or self.cheap_filters:
+            # (for very wide documents only singular queries are embedded in filters: every embedded descendant or
+            # wildcard query is evaluated once per child and the cost of a case would grow quadratically or worse)
             return self.singular()
         root = "@" if r.random() < 0.75 else "$"
         base = None
